@@ -566,13 +566,37 @@ def ob_merge_lists(case):
     elif case == "single":
         ms = [mk(0, 2)]
         want_nodes = ms[0].Nn
+    elif case in ("lifted", "lifted.first", "storeys", "tilted", "volume+volume"):
+        # meshes that do not all lie in the z = 0 plane: nodes with the same (x, y) and another z are NOT coincident
+        def moved(m, dz=0.0, rot=None):
+            m2 = m.copy()
+            if rot is not None:
+                m2.Rotate(rot, (0, 0, 0), (1, 0, 0))
+            if dz:
+                m2.Translate(0, 0, dz)
+            return m2
+        ground = mk(0, 2)
+        if case == "lifted":
+            ms = [ground, moved(ground, 1.0)]
+        elif case == "lifted.first":
+            ms = [moved(ground, 1.0), ground]
+        elif case == "storeys":
+            ms = [ground, mk(2, 5), moved(ground, 1.0), moved(mk(2, 5), 2.5)]
+        elif case == "tilted":
+            ms = [ground, moved(ground, 0.0, rot=90.0)]            # the rotated plate shares the edge y = 0 with the ground plate
+        else:
+            mk3 = lambda z0: Mesher().Mesh_Extrude(Domain(Point(0, 0, z0), Point(2, 2, z0), 1.0), [], [0, 0, 1], [1], ElemType.HEXA8, isOrganised=True)
+            ms = [mk3(0.0), mk3(1.0)]                                # two stacked boxes sharing a face
+        allc = np.vstack([np.asarray(m.coord) for m in ms])
+        want_nodes = len({tuple(np.round(c_, 9)) for c_ in allc})
     merged, mapping = Mesh.Merge(ms, return_mapping=True)
     out = _check_merge(ms, merged, mapping)
     if merged.Nn != want_nodes:
         out.append(f"merged mesh has {merged.Nn} nodes, expected {want_nodes}")
-    area = sum(float(m.area) for m in ms) if case != "duplicate" else float(ms[0].area)
-    if abs(float(merged.area) - area) > 1e-10 * area:
-        out.append(f"merged area {float(merged.area)!r}, expected {area!r}")
+    meas = (lambda m: float(m.volume)) if ms[0].dim == 3 else (lambda m: float(m.area))
+    area = sum(meas(m) for m in ms) if case != "duplicate" else meas(ms[0])
+    if abs(meas(merged) - area) > 1e-10 * area:
+        out.append(f"merged measure {meas(merged)!r}, expected {area!r}")
     plain = Mesh.Merge(ms)
     if plain.Nn != merged.Nn or plain.Ne != merged.Ne:
         out.append("Merge without return_mapping gives another mesh")
@@ -608,7 +632,7 @@ def build(tier, seed):
                       bound="one gmsh mesh", clause="K, M, C of a part == global on the owned rows; owned-row energies and reactions sum to the global ones", timeout=1800))
     for kind, Nproc in [("TRI3", 3), ("mixed", 4), ("QUAD8+TRI6", 5), ("TETRA4", 2)]:
         obs.append(Ob(f"C20.merge.parts.{kind}.{Nproc}", ob_merge_parts, (kind, Nproc), "X", (f"{MESH}::Mesh.Merge",), bound="one gmsh mesh", clause="Merge(parts) == global mesh; mapping carries coordinates", timeout=900))
-    for case in ("adjacent", "disjoint", "duplicate", "mixed-types", "nomerge", "single"):
+    for case in ("adjacent", "disjoint", "duplicate", "mixed-types", "nomerge", "single", "lifted", "lifted.first", "storeys", "tilted", "volume+volume"):
         obs.append(Ob(f"C20.merge.{case}", ob_merge_lists, (case,), "X", (f"{MESH}::Mesh.Merge",), bound="structured rectangles", clause="mapping[i][j] carries coordinates; merged index shared iff coincident; remapped union of elements", timeout=900))
     obs.append(Ob("canary.algo", ob_algo_canary, (), "B", expect=REFUTED))
     return dict(
